@@ -33,6 +33,8 @@ pub enum Mutation {
     BitFlip(u16),
     RootsRaw(Bytes),
     RootsWithRoot { before: u8, after: u8, cut: u8 },
+    /// `n` all-zero (or all-0xff) entries, optionally followed by a partial element
+    RootsFill { n: u8, ones: bool, cut: u8 },
 }
 
 #[derive(Clone, Debug, Serialize, Deserialize)]
@@ -122,6 +124,9 @@ fn build_input(g: &Golden, target: Target, m: &Mutation, root: &BigUint) -> (Vec
             input[bit / 8] ^= 1 << (bit % 8);
         }
         Mutation::RootsRaw(b) => roots = b.expand(),
+        Mutation::RootsFill { n, ones, cut } => {
+            roots = vec![if *ones { 0xff } else { 0 }; 32 * ((*n % 4) as usize + 1) + (*cut % 32) as usize];
+        }
         Mutation::RootsWithRoot { before, after, cut } => {
             for i in 0..(*before % 4) {
                 roots.extend(crate::models::codec_ref::enc_fr(&BigUint::from(1000u32 + i as u32)));
@@ -192,6 +197,7 @@ impl Property for C13 {
             1 => gens::bytes(300).prop_map(Mutation::Trailing),
             3 => any::<u16>().prop_map(Mutation::BitFlip),
             2 => gens::bytes(200).prop_map(Mutation::RootsRaw),
+            1 => (any::<u8>(), any::<bool>(), prop_oneof![Just(0u8), any::<u8>()]).prop_map(|(n, ones, cut)| Mutation::RootsFill { n, ones, cut }),
             2 => (any::<u8>(), any::<u8>(), any::<u8>()).prop_map(|(before, after, cut)| Mutation::RootsWithRoot { before, after, cut }),
         ];
         (any::<u8>(), target, mutation).prop_map(|(golden, target, mutation)| Case { golden, target, mutation }).boxed()
